@@ -123,7 +123,8 @@ def lindblad_form(ctx) -> None:
                 coef["H"] = c
             elif len(m) == 1 and "conj().T" in s and "h_eff" in s:
                 coef["Hdag"] = c
-            elif "apply_density_matrix_to_local_op_T" in s and "apply_local_op_to_density_matrix" in s:
+            elif len(m) == 1 and strip_typed(m[0])[0] == "call" and strip_typed(m[0])[1] == "sum" and \
+                    "apply_density_matrix_to_local_op_T" in s and "apply_local_op_to_density_matrix" in s:
                 coef["jump"] = c
         ok = coef.get("H") == 1 and coef.get("Hdag") == -1 and coef.get("jump") == 1j
         detail = str({k: v for k, v in coef.items()})
@@ -146,11 +147,35 @@ def lindblad_form(ctx) -> None:
     ctx.ob("LINDBLAD-form", "jump term", f.loc(), okj,
            "Σ over qubits and operators of L ρ L† with the same L and qubit on both sides" if okj else
            "the jump term does not apply the same operator on the same qubit from both sides")
+    noise_term(ctx)
+
+
+def noise_term(ctx) -> None:
+    """compute_noise_from_lindbladians = −(i/2) Σ_k L_k† L_k: one monomial, coefficient −i/2, the sum of L.mH @ L over
+    every operator handed in (emu-sv adds it to H_eff, emu-mps to the MPO's single-site term)."""
     g, gp = _ret(ctx, "emu_base.jump_lindblad_operators.compute_noise_from_lindbladians")
-    s = show(gp[0].retval)
-    okc = s.startswith("((-0-0.5j) * sum(") and ".mH @ " in s
+    okc = False
+    s = "?"
+    for p in gp:
+        s = show(p.retval)
+        mons = monomials(p.retval)
+        okc = False
+        if len(mons) == 1:
+            (m, c), = mons.items()
+            if len(m) == 1 and abs(c - (-0.5j)) < 1e-12:
+                a = strip_typed(m[0])
+                if a[0] == "call" and a[1] == "sum" and len(a[2]) >= 1:
+                    comp = strip_typed(a[2][0])
+                    if comp[0] == "comp" and len(comp[3]) == 1 and not comp[3][0][1]:
+                        el = strip_typed(comp[2][0])
+                        src = strip_typed(comp[3][0][0])
+                        item = ("elem", src, comp[4])
+                        okc = el[0] == "bin" and el[1] == "MatMult" and strip_typed(el[2]) == ("attr", item, "mH") and \
+                            strip_typed(el[3]) == item and src == ("param", g.qualname, g.params[0])
+        if not okc:
+            break
     ctx.ob("LINDBLAD-form", "noise term", g.loc(), okc,
-           "noise term = −(i/2) Σ L†L" if okc else f"compute_noise_from_lindbladians returns {s[:80]}")
+           "noise term = −(i/2) Σ L†L over every operator" if okc else f"compute_noise_from_lindbladians returns {s[:80]}, not −(i/2)·Σ L†L")
 
 
 def _loop_over_all_qubits(node: ast.AST, allowed: tuple, func=None) -> bool:
